@@ -60,9 +60,27 @@ def register_split(R):
     )
 
 
+def register_shape(R):
+    R.contract(
+        "rich.segment", "Segment.set_shape", serves=["C13", "C08", "C10"],
+        params={"lines": "list[list[Segment]]", "width": "int", "height": "Optional[int]", "style": "Optional[Style]"},
+        returns="list[list[Segment]]",
+        requires=["width >= 0", "implies(height is not None, height >= 0)"],
+        ensures=[
+            # the enclosing rectangle: max(len(lines), height) lines, each exactly `width` cells
+            "len(result) == max(len(lines), height if height is not None else len(lines))",
+            "all(line_cells(result[k]) == width for k in range(len(result)))",
+        ],
+        loops={0: Loop(header="for line, _ in zip_longest(lines, range(height))", index="i",
+                       invariant=["len(new_lines) == i", "all(line_cells(new_lines[k]) == width for k in range(i))"])},
+        native=False,
+    )
+
+
 _s0 = register
 
 
 def register(R):
     _s0(R)
     register_split(R)
+    register_shape(R)
